@@ -42,8 +42,7 @@ Proof. rewrite <- sqrt_mult by lra. replace (8 * / 8) with 1 by field. apply sqr
 
 Definition acc_delta : R := 3 / 16384.
 
-Lemma matrix_accuracy_cases : forall k i, (k < 8)%nat -> (i < 8)%nat ->
-  Rabs (mR k i - aR k i) <= acc_delta /\ Rabs (mR k i) <= 14 / 10 /\ Rabs (aR k i) <= 1415 / 1000.
+Lemma matrix_accuracy_entry : forall k i, (k < 8)%nat -> (i < 8)%nat -> Rabs (mR k i - aR k i) <= acc_delta.
 Proof.
   intros k i Hk Hi. unfold mR, aR, dctA, ck, ang, acc_delta.
   assert (Ck : (k = 0 \/ k = 1 \/ k = 2 \/ k = 3 \/ k = 4 \/ k = 5 \/ k = 6 \/ k = 7)%nat) by lia.
@@ -52,7 +51,29 @@ Proof.
   destruct Ck as [->|[->|[->|[->|[->|[->|[->| ->]]]]]]]; destruct Ci as [->|[->|[->|[->|[->|[->|[->| ->]]]]]]];
     cbn [Nat.eqb Mz nth linMcols INR Nat.mul Nat.add].
   all: try (rewrite <- Rmult_assoc, sqrt8_inv).
-  all: repeat split; interval with (i_prec 50).
+  all: interval with (i_prec 30).
+Qed.
+
+(* |Mz| <= 11363 by inspection of the table *)
+Lemma Mz_bound k i : (k < 8)%nat -> (i < 8)%nat -> (- 11363 <= Mz k i <= 11363)%Z.
+Proof.
+  intros Hk Hi.
+  assert (Ck : (k = 0 \/ k = 1 \/ k = 2 \/ k = 3 \/ k = 4 \/ k = 5 \/ k = 6 \/ k = 7)%nat) by lia.
+  assert (Ci : (i = 0 \/ i = 1 \/ i = 2 \/ i = 3 \/ i = 4 \/ i = 5 \/ i = 6 \/ i = 7)%nat) by lia.
+  destruct Ck as [->|[->|[->|[->|[->|[->|[->| ->]]]]]]]; destruct Ci as [->|[->|[->|[->|[->|[->|[->| ->]]]]]]];
+    cbn [Mz nth linMcols]; lia.
+Qed.
+
+Lemma matrix_accuracy_cases : forall k i, (k < 8)%nat -> (i < 8)%nat ->
+  Rabs (mR k i - aR k i) <= acc_delta /\ Rabs (mR k i) <= 14 / 10 /\ Rabs (aR k i) <= 1415 / 1000.
+Proof.
+  intros k i Hk Hi. pose proof (matrix_accuracy_entry k i Hk Hi) as A.
+  assert (B : Rabs (mR k i) <= 11363 / 8192).
+  { unfold mR. destruct (Mz_bound k i Hk Hi) as [B1 B2]. apply IZR_le in B1, B2. rewrite opp_IZR in B1.
+    apply Rabs_le. split; lra. }
+  split; [exact A|]. split; [lra|].
+  replace (aR k i) with (mR k i - (mR k i - aR k i)) by ring.
+  eapply Rle_trans; [apply Rabs_triang|]. rewrite Rabs_Ropp. unfold acc_delta in A. lra.
 Qed.
 
 (* ---------------------------------------------------------------- the 2-D flow graph is the Kronecker square of Mz *)
